@@ -38,6 +38,7 @@ type Contract struct {
 	Loops    map[int]*LoopContract
 	Unlocks  []UnlockClause // obligations at the n-th Unlock/Wait site of the function
 	Returns  []UnlockClause // obligations at the n-th return statement (source order) of the function
+	Waits    []*Clause      // obligations at EVERY Cond.Wait site of the function (`wait: expr`)
 	Decreases *Clause // termination measure for (mutually) recursive functions
 	Ghosts   []SpecParam // ghost parameters (universally quantified in the callee, bound by unique type match at call sites)
 	Line     int
@@ -142,7 +143,7 @@ func parseContractFile(path string) (*ContractFile, error) {
 	sc := bufio.NewScanner(f)
 	sc.Buffer(make([]byte, 1<<20), 1<<20)
 	ln := 0
-	kwRe := regexp.MustCompile(`^(props|overflow|requires|ensures|modifies|loop|trusted|attr|induction|ghost|decreases|unlock|return|dead)\b\s*(.*)$`)
+	kwRe := regexp.MustCompile(`^(props|overflow|requires|ensures|modifies|loop|trusted|attr|induction|ghost|decreases|unlock|return|wait|dead)\b\s*(.*)$`)
 	for sc.Scan() {
 		ln++
 		line := strings.TrimSpace(sc.Text())
@@ -386,6 +387,12 @@ func parseContractFile(path string) (*ContractFile, error) {
 						return nil, err
 					}
 					c.Unlocks = append(c.Unlocks, UnlockClause{Ord: n, C: cl})
+				case "wait":
+					cl, err := mkClause(strings.TrimSpace(strings.TrimPrefix(strings.TrimSpace(rc.text), ":")), rc.line)
+					if err != nil {
+						return nil, err
+					}
+					c.Waits = append(c.Waits, cl)
 				case "return":
 					m := regexp.MustCompile(`^(\d+)\s*:\s*(.*)$`).FindStringSubmatch(rc.text)
 					if m == nil {
